@@ -1131,9 +1131,9 @@ pub fn main(mode: Mode) -> i32 {
             ctx.run_regressions(&p);
             let scripts = small_scripts(ctx.thorough());
             let bound = if ctx.thorough() { 3 } else { 2 };
-            let cap = ctx.n(60_000, 3_000_000) as u64;
+            let cap = ctx.n(200_000, 3_000_000) as u64;
             run_exhaustive(&mut ctx, &check, &pool, "waitlists-exhaustive", &scripts, bound, cap);
-            let n = ctx.n(20_000, 400_000);
+            let n = ctx.n(60_000, 1_000_000);
             ctx.run_search(&p, n, 700, 300);
             for c in [
                 "step-between-conditional-enqueue-and-block",
@@ -1150,19 +1150,9 @@ pub fn main(mode: Mode) -> i32 {
                     ctx.require_class(&format!("all/{c}"));
                 }
             }
-            // evidence goes to C09.sched.json (the main C09 check merges it)
-            let tmp = std::path::Path::new(VERIF_ROOT).join(format!(".build/scratch/vsched-ev-{}", std::process::id()));
-            let _ = std::fs::create_dir_all(&tmp);
-            let final_dir = std::env::var("VERIF_EVIDENCE_DIR").map(std::path::PathBuf::from).unwrap_or_else(|_| std::path::Path::new(VERIF_ROOT).join("evidence"));
-            unsafe { std::env::set_var("VERIF_EVIDENCE_DIR", &tmp) };
+            // evidence goes to evidence/parts/C09.json (the main C09 check merges it)
+            Ctx::write_as_part();
             let rc = ctx.finish();
-            let _ = std::fs::create_dir_all(&final_dir);
-            let from = tmp.join("C09.json");
-            let to = final_dir.join("C09.sched.json");
-            if std::fs::rename(&from, &to).is_err() {
-                let _ = std::fs::copy(&from, &to);
-            }
-            let _ = std::fs::remove_dir_all(&tmp);
             rc
         }
     };
